@@ -143,6 +143,46 @@ pub fn run(a: &Args) -> Report {
         }
     }
 
+    if cfg.first_case == 0 && (prop == "C06" || prop == "C07") {
+        // long strings of multi-byte characters: every alignment of 2-, 3- and 4-byte characters relative to the 4 KiB / 16 KiB /
+        // 64 KiB marks, as a doc line of a type, of a field and of a variant, as a name and as a path segment
+        use scale_info::{Field, Path, PortableType, Type, TypeDefComposite, TypeDefVariant, Variant};
+        for (ch, w) in [("é", 2usize), ("日", 3), ("😀", 4)] {
+            for mark in [4096usize, 8192, 16384, 32768, 65536] {
+                for lead in 0..w {
+                    let n_chars = (mark + 64) / w + 2;
+                    let mut text = "x".repeat(lead);
+                    for _ in 0..n_chars {
+                        text.push_str(ch);
+                    }
+                    let field = |docs: Vec<String>, name: Option<String>| Field::new(name, 0.into(), Some("u8".to_string()), docs);
+                    let types = vec![
+                        PortableType::new(0, Type::new(Path::from_segments_unchecked(vec!["long".to_string()]), vec![], TypeDefComposite::new(vec![field(vec![], None)]), vec![text.clone(), "short".to_string()])),
+                        PortableType::new(1, Type::new(Path::from_segments_unchecked(vec!["long".to_string(), "F".to_string()]), vec![], TypeDefComposite::new(vec![field(vec!["short".to_string(), text.clone()], Some("a".to_string()))]), vec![])),
+                        PortableType::new(2, Type::new(Path::from_segments_unchecked(vec!["V".to_string()]), vec![], TypeDefVariant::new(vec![Variant::new("A".to_string(), vec![field(vec![text.clone()], None)], 0, vec![text.clone()])]), vec![])),
+                        PortableType::new(3, Type::new(Path::from_segments_unchecked(vec![text.clone()]), vec![], TypeDefComposite::new(vec![field(vec![], Some(text.clone()))]), vec![])),
+                    ];
+                    let r = PortableRegistry { types };
+                    let ref_bytes = refcodec::encode(&r);
+                    rep.eval(Some(hash_bytes(&ref_bytes)));
+                    rep.count("long_multibyte_string_registries", 1);
+                    let case = json!({"fixed_long_string": {"char_width": w, "near_byte": mark, "leading_ascii_bytes": lead}});
+                    match guard(|| r.encode()) {
+                        Ok(b) if b == ref_bytes => {}
+                        Ok(_) => rep.violation(&format!("{}/encode-differs", prop), "library encoding of a registry with a long multi-byte string differs from the layout".into(), case.clone()),
+                        Err(p) => rep.violation(&format!("{}/encode-panic", prop), p, case.clone()),
+                    }
+                    for (inp, res) in [("slice", guard(|| PortableRegistry::decode(&mut &ref_bytes[..]))), ("stream", guard(|| PortableRegistry::decode(&mut scale::IoReader(&ref_bytes[..]))))] {
+                        match res {
+                            Ok(Ok(r2)) if r2 == r => {}
+                            other => rep.violation(&format!("{}/long-string-roundtrip", prop), format!("{}-byte characters across the {} byte mark ({} leading ASCII bytes), {} input: {:?}", w, mark, lead, inp, other.map(|x| x.map(|_| "different registry").map_err(|e| e.to_string()))), case.clone()),
+                        }
+                    }
+                }
+            }
+        }
+    }
+
     let body = run_parallel(&cfg, |i, rep| {
         let (r, mode, mut rng) = gen_case(seed, i, thorough);
         let ref_bytes = refcodec::encode(&r);
@@ -173,6 +213,41 @@ pub fn run(a: &Args) -> Report {
             }
         };
 
+        // two registries encoded through the borrowing entry point at the same time (nested callbacks on one thread)
+        if i % 5 == 0 {
+            let other = PortableRegistry { types: r.types.iter().rev().cloned().collect() };
+            let other_bytes = refcodec::encode(&other);
+            match guard(|| r.using_encoded(|x| other.using_encoded(|y| (x.to_vec(), y.to_vec())))) {
+                Ok((x, y)) => {
+                    if x != ref_bytes && prop == "C06" || x != lib_bytes || y != other_bytes && prop == "C06" || y != other.encode() {
+                        rep.violation(&format!("{}/nested-using-encoded", prop), "two registries encoded through nested using_encoded calls: the bytes handed to the callbacks are not the two encodings".into(), case());
+                        return;
+                    }
+                    rep.count("nested_using_encoded", 1);
+                }
+                Err(p) => {
+                    rep.violation(&format!("{}/encode-panic", prop), format!("nested using_encoded of two registries panicked: {}", p), case());
+                    return;
+                }
+            }
+        }
+        if a.has("light") && prop == "C08" {
+            // short form for slow interpreters (other platforms): documented shape, and back
+            match guard(|| serde_json::to_value(&r)) {
+                Ok(Ok(v)) => {
+                    if v != refjson::registry(&r) {
+                        rep.violation("C08/shape", "serialised JSON differs from the documented shape".into(), case());
+                    }
+                    match guard(|| serde_json::from_value::<PortableRegistry>(v)) {
+                        Ok(Ok(r2)) if r2 == r => {}
+                        other => rep.violation("C08/roundtrip-value", format!("from_value(to_value(r)): {:?}", other.map(|x| x.map(|_| "different registry").map_err(|e| e.to_string()))), case()),
+                    }
+                }
+                other => rep.violation("C08/serialize-fails", format!("{:?}", other.map(|x| x.map(|_| ()))), case()),
+            }
+            rep.count("json_light_cases", 1);
+            return;
+        }
         if a.has("light") {
             // the short form of the monitor (for slow interpreters): layout bytes both ways, nothing else
             if lib_bytes != ref_bytes {
@@ -453,6 +528,27 @@ pub fn run(a: &Args) -> Report {
                     }
                     other => rep.violation("C08/roundtrip-text", format!("from_str fails: {:?}", other.map(|x| x.map(|_| ()).map_err(|e| e.to_string()))), case()),
                 }
+                // the registry embedded in a larger document the way metadata formats do it (`#[serde(flatten)]` next to other keys)
+                if i % 4 == 1 {
+                    let doc = Embedding { version: 4, registry: r.clone(), spec: "contract".to_string() };
+                    match guard(|| serde_json::to_value(&doc)) {
+                        Ok(Ok(v)) => {
+                            let mut expect = want.clone();
+                            if let Some(m) = expect.as_object_mut() {
+                                m.insert("version".into(), json!(4));
+                                m.insert("spec".into(), json!("contract"));
+                            }
+                            if v != expect {
+                                rep.violation("C08/shape", "a registry flattened into a larger document is not serialised in the documented shape".into(), case());
+                            }
+                            match guard(|| serde_json::from_value::<Embedding>(v)) {
+                                Ok(Ok(d2)) if d2.registry == r && d2.version == 4 && d2.spec == "contract" => rep.count("flattened_roundtrips", 1),
+                                other => rep.violation("C08/roundtrip-value", format!("a document with the registry flattened into it does not read back: {:?}", other.map(|x| x.map(|_| "different registry").map_err(|e| e.to_string()))), case()),
+                            }
+                        }
+                        other => rep.violation("C08/serialize-fails", format!("flattened: {:?}", other.map(|x| x.map(|_| ()))), case()),
+                    }
+                }
                 // pretty printer too (different whitespace path in the deserialiser)
                 if i % 8 == 0 {
                     let pretty = serde_json::to_string_pretty(&r).unwrap_or_default();
@@ -467,6 +563,15 @@ pub fn run(a: &Args) -> Report {
     });
     rep.merge(body);
     rep
+}
+
+/// A document that embeds a registry next to other keys (ink!-style metadata does this).
+#[derive(serde::Serialize, serde::Deserialize)]
+struct Embedding {
+    version: u8,
+    #[serde(flatten)]
+    registry: PortableRegistry,
+    spec: String,
 }
 
 /// An io::Write destination that fails once `left` bytes were taken (the codec turns that into a panic).
